@@ -68,6 +68,14 @@ scrape_configs:
   static_configs:
   - targets: ['unused:1']
 - job_name: j1
+  scrape_interval: 30s
+  basic_auth:
+    username: scraper
+    password: S3CR3T-of-the-loop
+  relabel_configs:
+  - source_labels: [__address__]
+    regex: (.+):80
+    target_label: node
   metric_relabel_configs:
   - source_labels: [__name__]
     regex: drop_.*
@@ -75,6 +83,22 @@ scrape_configs:
   static_configs:
   - targets: ['unused:1']
 `
+
+// shardFile is the configuration file of a sidecar that runs in file mode (--config.file, pushed configuration is
+// refused): the coordinator's content plus per-shard external labels, as a per-pod rendered file has them.
+// drift makes it differ from the coordinator's in one other setting.
+func shardFile(ord int, drift string) string {
+	txt := strings.Replace(RawConfig, "global:\n", fmt.Sprintf("global:\n  external_labels:\n    replica: shard-%d\n    region: r%d\n", ord, ord%2), 1)
+	switch drift {
+	case "password":
+		txt = strings.Replace(txt, "S3CR3T-of-the-loop", "S3CR3T-of-last-week", 1)
+	case "regex":
+		txt = strings.Replace(txt, "regex: (.+):80", "regex: (.+):8080", 1)
+	case "interval":
+		txt = strings.Replace(txt, "scrape_interval: 30s", "scrape_interval: 31s", 1)
+	}
+	return txt
+}
 
 // FarmSpec is one target of the workload.
 type FarmSpec struct {
@@ -120,6 +144,22 @@ type Case struct {
 	InitScrapes      []int      `json:"initScrapes"`
 	Prefix           []Action   `json:"prefix"`
 	RandSeed         int64      `json:"randSeed"`
+	// FileMode: every sidecar reads its configuration from a file of its own (coordinator's content + per-shard
+	// external labels) and refuses pushed configuration
+	FileMode bool `json:"fileMode,omitempty"`
+	// Drift: (file mode) this shard's file differs from the coordinator's configuration in one setting, so it
+	// is never in sync
+	Drift *DriftSpec `json:"drift,omitempty"`
+	// Bulk: additional small healthy targets (hashes 100001...), LabelPad: bytes of label values added to every
+	// target (a kubernetes pod's label set): the assignment of one shard becomes a request body of megabytes
+	Bulk     int `json:"bulk,omitempty"`
+	LabelPad int `json:"labelPad,omitempty"`
+}
+
+// DriftSpec names the shard that runs another configuration and the setting that differs.
+type DriftSpec struct {
+	Shard int    `json:"shard"`
+	Kind  string `json:"kind"` // password | regex | interval
 }
 
 // Sidecar is one real sidecar plus its simulated Prometheus.
@@ -311,8 +351,22 @@ func (w *World) newSidecar(ordinal int, dir string) *Sidecar {
 	}
 	sc.Proxy = sidecar.NewProxy(getJob, func() map[uint64]*target.ScrapeStatus { return sc.TM.TargetsInfo().Status },
 		sc.Cfg.ConfigInfo, prometheus.NewRegistry(), quiet)
-	sc.Svc = sidecar.NewService("", "http://127.0.0.1:1", func() (int64, error) { return sc.head(), nil },
+	cfgFile := ""
+	if w.Case.FileMode {
+		drift := ""
+		if w.Case.Drift != nil && w.Case.Drift.Shard == ordinal {
+			drift = w.Case.Drift.Kind
+		}
+		cfgFile = filepath.Join(w.root, fmt.Sprintf("prometheus-%d.yml", ordinal))
+		_ = ioutil.WriteFile(cfgFile, []byte(shardFile(ordinal, drift)), 0644)
+	}
+	sc.Svc = sidecar.NewService(cfgFile, "http://127.0.0.1:1", func() (int64, error) { return sc.head(), nil },
 		sc.Cfg, sc.TM, prometheus.NewRegistry(), quiet)
+	if cfgFile != "" {
+		if err := sc.Cfg.ReloadFromFile(cfgFile); err != nil {
+			panic(fmt.Sprintf("sidecar %d failed to load its configuration file: %v", ordinal, err))
+		}
+	}
 	if err := sc.TM.Load(); err != nil {
 		panic(fmt.Sprintf("sidecar %d failed to load its store: %v", ordinal, err))
 	}
@@ -669,6 +723,13 @@ func (w *World) rebuildActive() {
 		if t.Healthy {
 			st.Series, st.TotalSeries = t.Series, t.Total
 		}
+		if pad := w.Case.LabelPad; pad > 0 {
+			// the label set of a kubernetes pod: a handful of labels with long values
+			for k := 0; k < 8; k++ {
+				st.Labels = append(st.Labels, labels.Label{Name: fmt.Sprintf("pod_label_%d", k), Value: fmt.Sprintf("%d-%s", t.Hash, strings.Repeat("v", pad/8))})
+			}
+			sort.Sort(st.Labels)
+		}
 		act[t.Hash] = &discovery.SDTargets{Job: t.Job, ShardTarget: st}
 	}
 	w.mu.Lock()
@@ -708,6 +769,11 @@ func NewWorld(c *Case) (*World, error) {
 		w.Farm[t.Hash] = &t
 		w.order = append(w.order, t.Hash)
 	}
+	for i := 0; i < c.Bulk; i++ {
+		t := FarmSpec{Hash: uint64(100001 + i), Job: []string{"j0", "j1"}[i%2], Series: 1, Total: 1, Healthy: true}
+		w.Farm[t.Hash] = &t
+		w.order = append(w.order, t.Hash)
+	}
 	w.rebuildActive()
 	cm := prom.NewConfigManager()
 	if err := cm.ReloadFromRaw([]byte(RawConfig)); err != nil {
@@ -739,8 +805,10 @@ func NewWorld(c *Case) (*World, error) {
 	}
 	for i, sc := range w.Shards {
 		// every sidecar of the initial fleet already runs the coordinator's configuration
-		if code, _ := serve(sc.Svc, "POST", "http://x/api/v1/status/config", mustJSON(&shard.UpdateConfigRequest{RawContent: RawConfig})); code != 200 {
-			return nil, fmt.Errorf("initial config push to shard %d answered %d", i, code)
+		if !c.FileMode {
+			if code, _ := serve(sc.Svc, "POST", "http://x/api/v1/status/config", mustJSON(&shard.UpdateConfigRequest{RawContent: RawConfig})); code != 200 {
+				return nil, fmt.Errorf("initial config push to shard %d answered %d", i, code)
+			}
 		}
 		if per[i] != nil {
 			if code, body := serve(sc.Svc, "POST", "http://x/api/v1/shard/targets/", mustJSON(&shard.UpdateTargetsRequest{Targets: per[i]})); code != 200 {
@@ -1179,7 +1247,8 @@ func (w *World) Do(a Action) {
 		}
 	case "outOfSync":
 		// the sidecar lost its configuration (e.g. restarted) and rejects pushes for K cycles
-		if a.Shard < len(w.Shards) {
+		// (a sidecar in file mode never takes pushed configuration: the fault does not exist there)
+		if a.Shard < len(w.Shards) && !w.Case.FileMode {
 			sc := w.Shards[a.Shard]
 			_ = sc.Cfg.ReloadFromRaw([]byte("global:\n  scrape_interval: 33s\n"))
 			sc.RejectCfg = a.K
